@@ -46,14 +46,14 @@ def run_h(exe, args, variant, timeout):
 
 def opargs(op):
     # OpModes of History.tla: none / own (every generator gets an operation object of its own) / shared (one object for all)
-    return ["--shared-op"] if op == "shared" else ["--pair-op"] if op == "pair" else ["--with-op"] if op else []
+    return ["--shared-op"] if op == "shared" else ["--pair-op"] if op == "pair" else ["--strict-op"] if op == "strict" else ["--with-op"] if op else []
 
 
 def optag(op):
-    return ",shared-op" if op == "shared" else ",pair-op" if op == "pair" else ",op" if op else ""
+    return ",shared-op" if op == "shared" else ",pair-op" if op == "pair" else ",strict-op" if op == "strict" else ",op" if op else ""
 
 
-def explore(ck, tier, variants_cover, variants_walk, pid_tag, cfg=None, ops=(False, True, "shared", "pair"), budget=None):
+def explore(ck, tier, variants_cover, variants_walk, pid_tag, cfg=None, ops=(False, True, "shared", "pair", "strict"), budget=None):
     thorough = tier == "thorough"
     wd = vlib.workdir(pid_tag)
     dump = os.path.join(wd, "history")
@@ -77,7 +77,7 @@ def explore(ck, tier, variants_cover, variants_walk, pid_tag, cfg=None, ops=(Fal
                          "cover(%s%s%s)" % (v, optag(op), "," + cfg if cfg else "")))
     for v in variants_walk:
         for op in ops:
-            jobs.append((v, ["--graph", gpath, "--walks", str(4000 if thorough else 400), "--walklen", "14", "--seed", str(ck.seed + (3 if op == "pair" else 2 if op == "shared" else 1 if op else 0)),
+            jobs.append((v, ["--graph", gpath, "--walks", str(4000 if thorough else 400), "--walklen", "14", "--seed", str(ck.seed + (4 if op == "strict" else 3 if op == "pair" else 2 if op == "shared" else 1 if op else 0)),
                              "--budget", "400" if thorough else "60"] + opargs(op), "walks(%s%s)" % (v, optag(op))))
     results = []
     with cf.ThreadPoolExecutor(max_workers=len(jobs)) as ex:
